@@ -877,7 +877,7 @@ func (r *run) callBuiltin(fn *ssa.Builtin, args []Value) Value {
 		if c == nil || c.closed {
 			panic(runtimePanic("close of nil or closed channel"))
 		}
-		r.yield("close", nil)
+		r.yieldOn("close", []any{c}, nil)
 		c.closed = true
 		return nil
 	case "SliceData":
